@@ -50,6 +50,40 @@ class CallGraph:
                     ext.append((res or gen or t.get("callee_ty") or "?indirect", t.get("line"), bl["id"], t.get("exp", False)))
             self.edges[dp] = out
             self.ext_calls[dp] = ext
+        # function references in the typed HIR (functions passed as values, portfolio constants, statics): fn -> referenced fn
+        from .facts import walk as _walk
+        const_refs = {}
+        for b in fx.body_list:
+            refs = set()
+            for n in _walk(b["body"]):
+                if n.get("k") == "Path" and "callee" in n:
+                    for c in (n.get("callee_res"), n.get("callee")):
+                        if c in self.mir:
+                            refs.add(c)
+                            break
+                        if c in self.impls_of:
+                            refs.update(x for x in self.impls_of[c] if x in self.mir)
+                            break
+                elif n.get("k") == "Path" and n.get("res", {}).get("r") == "def" and n["res"].get("kind", "").startswith(("Const", "Static", "AssocConst")):
+                    refs.add("const:" + n["res"]["path"])
+            if b["kind"].startswith(("Const", "Static", "AssocConst")):
+                const_refs[b["def_path"]] = refs
+            elif b["def_path"] in self.edges:
+                self.edges[b["def_path"]].update(r for r in refs if not r.startswith("const:"))
+                self.edges[b["def_path"]].update(("const:" + r[6:]) for r in refs if r.startswith("const:"))
+        # resolve const nodes: a function that mentions a const reaches the functions its initialiser mentions;
+        # lazy_static: the static's Deref impl runs the initialiser function
+        for dp in list(self.edges):
+            extra = set()
+            for r in list(self.edges[dp]):
+                if isinstance(r, str) and r.startswith("const:"):
+                    self.edges[dp].discard(r)
+                    name = r[6:]
+                    extra.update(x for x in const_refs.get(name, ()) if not x.startswith("const:"))
+                    for d2 in self.mir:
+                        if d2.startswith("<%s as std::ops::Deref>::deref" % name):
+                            extra.add(d2)
+            self.edges[dp].update(extra)
         # closures are reachable from the function that creates them
         for dp, m in self.mir.items():
             if m.get("kind") == "Closure":
